@@ -11,8 +11,8 @@ from run import Case
 from regmachine import Machine
 
 PROPERTY = "C14"
-LEAN_MODULE = "PyOak.Props.C05"
-THEOREMS = ["PyOak.C05.dfs_top_down"]
+LEAN_MODULE = "PyOak.Props.C14"
+THEOREMS = ["PyOak.C14." + t for t in ['dup_fresh', 'dup_copy', 'dup_independent', 'replace_new_id', 'replace_same_digest_keeps_id', 'dcReplace_new_id']]
 RULE = ("random histories (<= 24 ops) with 30% construct, 30% duplicate/replace/dataclasses.replace (single- and "
         "multi-field changes of comparable / non-comparable props, children, origin; replace raising), rest detach / "
         "as_obj / alias / del, on registered and detached originals with and without registered twins, shared subtrees; "
